@@ -1069,3 +1069,197 @@ Proof.
   destruct e; try congruence;
     repeat break_match H; inversion H; subst s1 vs mx; cbn in Hg; try (apply Hdel in Hg); exact Hg.
 Qed.
+
+(* ================================================================ worker *)
+Lemma wrun_from_cons : forall s e rest,
+  wrun_from s (e :: rest) =
+  (fst (wrun_from (fst (wstep s e)) rest),
+   (e, snd (wstep s e)) :: snd (wrun_from (fst (wstep s e)) rest)).
+Proof.
+  intros s e rest. cbn [wrun_from]. destruct (wstep s e) as [s1 o]. cbn [fst snd].
+  destruct (wrun_from s1 rest) as [s2 tr]. reflexivity.
+Qed.
+
+(* jobs read from nextJob whose result is still owed *)
+Definition wowed (s : wstate) : list Z :=
+  match s with WBusy j | WSend j _ | WGone (Some j) => [j] | _ => [] end.
+
+Lemma wstep_account : forall s e,
+  wowed s ++ waccepted [(e, snd (wstep s e))] =
+  map fst (wresults [(e, snd (wstep s e))]) ++ wowed (fst (wstep s e)).
+Proof.
+  intros s e. unfold waccepted, wresults. cbn [flat_map fst snd]. rewrite !app_nil_r.
+  destruct s as [|j|j err|[l|]]; destruct e as [j' pc|fin prog| | | | | |];
+    try destruct pc; try destruct fin; try destruct err; reflexivity.
+Qed.
+
+Lemma waccepted_cons : forall x tr, waccepted (x :: tr) = waccepted [x] ++ waccepted tr.
+Proof. intros. unfold waccepted. cbn [flat_map]. rewrite app_nil_r. reflexivity. Qed.
+Lemma wresults_cons : forall x tr, wresults (x :: tr) = wresults [x] ++ wresults tr.
+Proof. intros. unfold wresults. cbn [flat_map]. rewrite app_nil_r. reflexivity. Qed.
+
+Lemma wrun_account : forall es s,
+  wowed s ++ waccepted (snd (wrun_from s es)) =
+  map fst (wresults (snd (wrun_from s es))) ++ wowed (fst (wrun_from s es)).
+Proof.
+  induction es as [|e rest IH]; intros s.
+  - cbn. rewrite app_nil_r. reflexivity.
+  - rewrite wrun_from_cons. cbn [fst snd].
+    rewrite waccepted_cons, wresults_cons, map_app, app_assoc, wstep_account, <- !app_assoc.
+    f_equal. apply IH.
+Qed.
+
+(* Every job a worker reads from nextJob produces exactly one result, in
+   order, except the one it still works on / has ready, or held when told to
+   quit. *)
+Lemma worker_exactly_one : forall es,
+  waccepted (wtrace es) = map fst (wresults (wtrace es)) ++ wowed (wfinal es).
+Proof. intros es. exact (wrun_account es WIdle). Qed.
+
+(* every way a job can end is reported as soon as the dispatcher takes it *)
+Lemma worker_cause_reported : forall j e c,
+  cause_of e = Some c ->
+  fst (wstep (WBusy j) e) = WSend j c /\
+  wres (snd (wstep (WSend j c) WTake)) = Some (j, c) /\
+  (c <> JDisconnected -> fst (wstep (WSend j c) WTake) = WIdle).
+Proof.
+  intros j e c H. destruct e as [j' pc|fin prog| | | | | |]; try destruct fin; cbn in H; inversion H; subst;
+    (split; [reflexivity|]); (split; [reflexivity|]); intros Hc; try reflexivity; congruence.
+Qed.
+
+Definition WR (s : wstate) (m : wmon) : Prop :=
+  wquit m = true \/
+  (wquit m = false /\
+   match s with
+   | WIdle => wpend m = None /\ wcause m = None
+   | WBusy j => wpend m = Some j /\ wcause m = None
+   | WSend j e => wpend m = Some j /\ wcause m = Some e
+   | WGone None => wpend m = None /\ wcause m = None
+   | WGone (Some _) => False
+   end).
+
+Lemma jerr_eqb_refl : forall e, jerr_eqb e e = true.
+Proof. destruct e; reflexivity. Qed.
+
+Lemma wstep_sim : forall s m e,
+  WR s m -> exists m', wmstep m (e, snd (wstep s e)) = Some m' /\ WR (fst (wstep s e)) m'.
+Proof.
+  intros s m e [Hq | [Hq H]].
+  - unfold wmstep. rewrite Hq. eexists. split; [reflexivity | left; exact Hq].
+  - destruct m as [p c q]. cbn [wquit wpend wcause] in *. subst q.
+    destruct s as [|j|j err|[l|]]; try contradiction; destruct H as [Hp Hc]; subst p c;
+      destruct e as [j' pc|fin prog| | | | | |]; try destruct pc; try destruct fin;
+      unfold wmstep; cbn [wstep fst snd wquit wres wacc wsent wpend wcause wnone cause_of Bool.eqb negb];
+      rewrite ?Z.eqb_refl, ?jerr_eqb_refl; cbn [andb];
+      try (destruct err; cbn [fst snd wres wacc wsent]);
+      (eexists; split; [reflexivity|]);
+      first [ left; reflexivity | right; split; [reflexivity|]; split; reflexivity ].
+Qed.
+
+Lemma wholds_model_from : forall es s m, WR s m ->
+  exists m', wmon_run m (snd (wrun_from s es)) = Some m'.
+Proof.
+  induction es as [|e rest IH]; intros s m H.
+  - exists m. reflexivity.
+  - rewrite wrun_from_cons. cbn [snd wmon_run].
+    destruct (wstep_sim s m e H) as [m1 [Hm1 H1]]. rewrite Hm1. apply IH. exact H1.
+Qed.
+
+Lemma wholds_model : forall es, wholds (wtrace es) = true.
+Proof.
+  intros es. unfold wholds, wtrace.
+  assert (H0 : WR WIdle wminit) by (right; split; [reflexivity | split; reflexivity]).
+  destruct (wholds_model_from es WIdle wminit H0) as [m' Hm]. rewrite Hm. reflexivity.
+Qed.
+
+(* ======================================== composition with the dispatcher *)
+(* Whatever result a worker reports — also the ErrJobCanceled of a job whose
+   batch has timed out, which the dispatcher discards — frees its slot. *)
+Lemma result_frees_worker : forall s j p e s1 vs mx w,
+  handle s (Result j p e) = (s1, vs, mx) -> crashed s1 = false ->
+  find (fun w => wname w =? p) (workers s1) = Some w -> wactive w = None.
+Proof.
+  intros s j p e s1 vs mx w H Hc Hf. cbn [handle] in H.
+  destruct (find_worker s p) as [w0|] eqn:Hw.
+  2:{ inversion H; subst. cbn in Hc. discriminate. }
+  match type of H with (if ?c then _ else _) = _ => destruct c eqn:Hcc end.
+  { inversion H; subst. cbn in Hc. discriminate. }
+  cbv zeta in H.
+  assert (Hws : workers s1 = upd_worker (workers s) p None).
+  { repeat break_match H; inversion H; subst s1; reflexivity. }
+  rewrite Hws in Hf. unfold upd_worker in Hf. clear - Hf.
+  induction (workers s) as [|a t IH]; cbn [map find] in Hf; [discriminate|].
+  destruct (wname a =? p) eqn:E.
+  - cbn [wname] in Hf. rewrite Z.eqb_refl in Hf. inversion Hf; subst. reflexivity.
+  - rewrite E in Hf. apply IH. exact Hf.
+Qed.
+
+Lemma candidates_nonempty : forall s, free_workers s <> [] -> candidates s <> [].
+Proof.
+  intros s Hf Hc.
+  assert (Hmin : forall l, l <> [] -> exists m, In m l /\ forallb (fun x => score s m <=? score s x) l = true).
+  { induction l as [|a t IHl]; [congruence|]. intros _. destruct t as [|a' t'].
+    - exists a. split; [left; reflexivity|]. cbn. lia.
+    - destruct (IHl ltac:(discriminate)) as [m [Hm Hfa]].
+      destruct (score s a <=? score s m) eqn:E.
+      + exists a. split; [left; reflexivity|]. apply forallb_forall. rewrite forallb_forall in Hfa.
+        intros x [Hx|Hx]; [subst; lia | specialize (Hfa x Hx); lia].
+      + exists m. split; [right; exact Hm|]. apply forallb_forall. rewrite forallb_forall in Hfa.
+        intros x [Hx|Hx]; [subst; lia | exact (Hfa x Hx)]. }
+  destruct (Hmin _ Hf) as [m [Hm Hfa]].
+  assert (Hin : In m (candidates s)) by (unfold candidates; apply filter_In; split; [exact Hm | exact Hfa]).
+  rewrite Hc in Hin. destruct Hin.
+Qed.
+
+(* ... and a free worker is given the head of the queue at once: a batch
+   submitted while a worker is free is handed out in the same step. *)
+Lemma free_worker_is_used : forall fuel s picks acc s' ds,
+  dispatch_phase (S fuel) s picks acc = (s', ds) ->
+  work s <> [] -> free_workers s <> [] ->
+  exists j p t new, work s = j :: tl (work s) /\ ds = acc ++ (j, p, t) :: new /\ In p (free_workers s).
+Proof.
+  intros fuel s picks acc s' ds H Hw Hf. cbn [dispatch_phase] in H.
+  destruct (work s) as [|j rest] eqn:Ew; [congruence|].
+  destruct (choose s picks) as [[p picks']|] eqn:Ech.
+  - destruct (dispatch_phase_rdisp _ _ _ _ _ _ H) as [new [Hds _]].
+    destruct (choose_spec _ _ _ _ Ech) as [Hin _].
+    exists j, p, (job_timeout s j), new. split; [reflexivity|]. split; [rewrite Hds, <- app_assoc; reflexivity | exact Hin].
+  - exfalso. unfold choose in Ech. destruct (candidates s) as [|c cs] eqn:Ec.
+    + apply (candidates_nonempty s Hf Ec).
+    + destruct picks as [|x r]; [discriminate|]. destruct (mem x (c :: cs)); discriminate.
+Qed.
+
+Lemma insert_job_nonempty : forall j l, insert_job j l <> [].
+Proof. intros j [|x t]; cbn [insert_job]; [discriminate|]. destruct (j <=? x); discriminate. Qed.
+
+Lemma fold_insert_nonempty : forall js w, js <> [] \/ w <> [] ->
+  fold_left (fun w j => insert_job j w) js w <> [].
+Proof.
+  induction js as [|j t IH]; intros w [H|H]; cbn [fold_left]; try congruence.
+  - apply IH. right. apply insert_job_nonempty.
+  - apply IH. right. apply insert_job_nonempty.
+Qed.
+
+Lemma newbatch_handed_out : forall s n nr rt pt picks,
+  crashed s = false -> stopped s = false -> free_workers s <> [] ->
+  exists j p t rest, odisp (snd (step s (NewBatch (S n) nr rt pt, picks))) = (j, p, t) :: rest /\
+                     In p (free_workers s).
+Proof.
+  intros s n nr rt pt picks Hc Hs Hf. unfold step. rewrite Hc, Hs.
+  destruct (handle s (NewBatch (S n) nr rt pt)) as [[s1 vs] mx] eqn:Hh.
+  assert (Hc1 : crashed s1 = false).
+  { apply handle_newbatch in Hh. destruct Hh as (_ & _ & _ & _ & _ & E). congruence. }
+  rewrite Hc1.
+  assert (Hw : work s1 <> [] /\ free_workers s1 = free_workers s).
+  { cbn [handle] in Hh. inversion Hh; subst s1. cbn [work set_queryIndex set_batchIndex set_batches set_queries set_jobs set_work].
+    split.
+    - apply fold_insert_nonempty. right. apply insert_job_nonempty.
+    - reflexivity. }
+  destruct Hw as [Hw Hfw].
+  destruct (dispatch_phase (length (work s1)) s1 picks []) as [s2 ds] eqn:Hd.
+  destruct (work s1) as [|j0 r0] eqn:Ew; [congruence|]. cbn [length] in Hd.
+  destruct (free_worker_is_used _ _ _ _ _ _ Hd) as (j & p & t & new & _ & Hds & Hin).
+  - rewrite Ew. discriminate.
+  - rewrite Hfw. exact Hf.
+  - cbn [snd mk_obs odisp]. exists j, p, t, new. split; [exact Hds | rewrite <- Hfw; exact Hin].
+Qed.
